@@ -180,6 +180,10 @@ func (e *tmExec) cancel(fu *tmFut) {
 	fu.cancelInv.Store(true)
 	panicked, _ := callPanics(func() { fu.fut.Cancel() })
 	t := e.stamp()
+	if fu.id%5 == 0 {
+		// a cancelled future is printed (fmt.Stringer): looking at a future must not disturb the package
+		callPanics(func() { _ = fmt.Sprint(fu.fut) })
+	}
 	fu.cancelRet.Store(true)
 	e.log(tmEv{kind: "CancelRet", i: fu.id, t: t, panic: panicked})
 	e.touch(t)
@@ -353,6 +357,13 @@ func (e *tmExec) runScript(sc tmScript, rnd *rand.Rand, alone bool) {
 					break // the verdict is established at Quiesce; no need to wait 2.5 s a thousand times
 				}
 			}
+		case "never":
+			// delays at the very top of the range of time.Duration ("never"): now + d does not fit a 64-bit nanosecond
+			// count; such futures must simply not start (they are cancelled after Quiesce like every far future)
+			for _, d := range []time.Duration{math.MaxInt64, math.MaxInt64 - 1, math.MaxInt64 - time.Duration(rnd.Intn(1<<30)), 1 << 62, 292 * 365 * 24 * time.Hour} {
+				mine = append(mine, e.call(d, 0, true, false))
+			}
+			time.Sleep(20 * e.p.unit)
 		case "retire":
 			// "a Call arriving exactly when the last worker retires": the idle time-out of this execution is one
 			// nanosecond, so the worker leaves as soon as it has started the only future there is; the next Call
@@ -693,6 +704,11 @@ func driveTimer(opt *Options) error {
 			for n := geti("chase", 0) / 2; n > 0; n -= 300 { // (short executions, see the retire job)
 				jobs = append(jobs, job{p: pc, scripts: []tmScript{{{Op: "chase", N: tmMin(n, 300), Cold: true}}}})
 			}
+		}
+		if geti("never", 1) > 0 {
+			pn := p
+			pn.idleChk, pn.sample, pn.restart = false, false, false
+			jobs = append(jobs, job{p: pn, scripts: []tmScript{{{Op: "never"}, {Op: "call", D: 2}, {Op: "tick", N: 4}}}})
 		}
 		if geti("order", 0) > 0 {
 			// the queue's ORDER: dozens of futures 100 ms apart, scheduled in a shuffled order, a quarter of them cancelled
